@@ -75,6 +75,7 @@ struct PkgEngine : Engine {
 		knobs["dstring_start"] = starts[kn.below(5)];
 		knobs["slab_objects"] = kn.chance(1, 3) ? 17 : 1024;
 		knobs["read_chunk"] = kn.chance(1, 3) ? (int64_t)kn.range(1, 4096) : 0;
+		knobs["malloc_fill"] = kn.chance(1, 2) ? 1 : 0;      // fresh heap memory holds garbage that depends on the allocation history (core.h)
 		p["knobs"] = knobs;
 		// ---- the asset directory
 		static const char * names[] = {"a.png", "b.jpg", "sub/c.png", "d e.gif", "style.css", "big.bin", "tiny.png"};
